@@ -427,6 +427,14 @@ func (an *Analysis) callAtom(c *ssa.Call, idx int) (*Atom, bool) {
 		}
 	}
 	if idx != -1 {
+		// bool result #idx of a static repo call: a named atom so that rows can refer to it
+		if sc := c.Call.StaticCallee(); sc != nil && an.P.IsRepoFunc(sc) {
+			name := an.A.roleOf[sc]
+			if name == "" {
+				name = sc.Name()
+			}
+			return &Atom{Key: fmt.Sprintf("ret:%s#%d", name, idx)}, false
+		}
 		return nil, false
 	}
 	// designated predicates
@@ -443,7 +451,7 @@ func (an *Analysis) callAtom(c *ssa.Call, idx int) (*Atom, bool) {
 	return nil, false
 }
 
-var predRoles = map[string]bool{"gate": true, "canStore": true, "siePolicy": true, "unsafe": true, "nonError": true, "sameOrigin": true, "sieStatus": true}
+var predRoles = map[string]bool{"heurStatus": true, "understood": true, "gate": true, "canStore": true, "siePolicy": true, "unsafe": true, "nonError": true, "sameOrigin": true, "sieStatus": true}
 
 // predRole maps a callee to a predicate role, looking through one-line adapter methods (XFunc.Method -> f(...)).
 func (an *Analysis) predRole(fn *ssa.Function) string {
@@ -522,6 +530,17 @@ func closeImplications(m map[string]bool) map[string]bool {
 		if strings.HasSuffix(k, ".ok") && !v {
 			if _, ok := out[strings.TrimSuffix(k, ".ok")+".arg"]; !ok {
 				out[strings.TrimSuffix(k, ".ok")+".arg"] = false
+			}
+		}
+		// a valid argument implies presence: X.ok=T => X=T (presence accessor of the same directive); X=F => X.ok=F
+		if strings.HasSuffix(k, ".ok") && v && (strings.HasPrefix(k, "rs.") || strings.HasPrefix(k, "rq.") || strings.HasPrefix(k, "up.")) {
+			if _, ok := out[strings.TrimSuffix(k, ".ok")]; !ok {
+				out[strings.TrimSuffix(k, ".ok")] = true
+			}
+		}
+		if !strings.Contains(strings.TrimPrefix(strings.TrimPrefix(strings.TrimPrefix(k, "rs."), "rq."), "up."), ".") && !v && (strings.HasPrefix(k, "rs.") || strings.HasPrefix(k, "rq.") || strings.HasPrefix(k, "up.")) {
+			if _, ok := out[k+".ok"]; !ok {
+				out[k+".ok"] = false
 			}
 		}
 	}
